@@ -340,6 +340,9 @@ func (so *stateObject) deepCopy(db *StateDB) *stateObject {
 	stateObject.suicided = so.suicided
 	stateObject.dirtyCode = so.dirtyCode
 	stateObject.deleted = so.deleted
+	// the delegation list is replaced, never edited in place, so it can be shared
+	stateObject.delegations = so.delegations
+	stateObject.dirtyDlgs = so.dirtyDlgs
 	return stateObject
 }
 
